@@ -6,6 +6,9 @@ iteration, membership, returned references, raised exceptions) — DESIGN §4.3.
 """
 import collections
 import gc
+import os
+import shutil
+import tempfile
 
 from ddsim import model, seams, simfs
 
@@ -73,7 +76,16 @@ class World:
         for i in range(cfg.get('n_mgrs', 2)):
             self.new_manager(i, [self.names[k] for k in range(n0)]
                              if i == 0 else [])
-        self.fs.bind()
+        self.real_dir = None
+        if cfg.get('real_disk'):
+            # real-disk slice: real open / os / shutil / shelve in a private
+            # scratch directory (JSON dump and load use a *relative*
+            # `__shelve__` directory), so that SimFS cannot flatter the code
+            self.real_dir = tempfile.mkdtemp(prefix='ddsim_disk_')
+            self.old_cwd = os.getcwd()
+            os.chdir(self.real_dir)
+        else:
+            self.fs.bind()
 
     # ------------------------------------------------------------------ mgrs
     def new_manager(self, idx, declared):
@@ -99,7 +111,28 @@ class World:
         return m
 
     def close(self):
-        self.fs.unbind()
+        if self.real_dir is not None:
+            os.chdir(self.old_cwd)
+            shutil.rmtree(self.real_dir, ignore_errors=True)
+            self.real_dir = None
+        else:
+            self.fs.unbind()
+
+    def get_file(self, fname):
+        if self.real_dir is None:
+            return self.fs.files.get(fname)
+        try:
+            with open(os.path.join(self.real_dir, fname), 'rb') as fd:
+                return fd.read()
+        except OSError:
+            return None
+
+    def put_file(self, fname, data):
+        if self.real_dir is None:
+            self.fs.files[fname] = data
+        else:
+            with open(os.path.join(self.real_dir, fname), 'wb') as fd:
+                fd.write(data)
 
     # --------------------------------------------------------------- failure
     def fail(self, oracle, detail, props, op=None, cond=()):
